@@ -1238,6 +1238,119 @@ func (g *gen) chainAction(fx *fctx, a action, depth int) []*Stmt {
 	return append(pre, out...)
 }
 
+// factory: a function that declares locals, creates closures over them in a random order (so a
+// variable in a higher register is often captured before one in a lower register) and returns
+// the closures; the caller keeps them, runs other calls over the freed registers and then calls
+// each closure, which inspects (and sets) its upvalues: names, order and current values of
+// variables whose declaring function has returned.
+func (g *gen) factory(fx *fctx, depth int) []*Stmt {
+	mk := &Func{ID: g.fn()}
+	mx := &fctx{fn: mk, parent: fx, callerNLoc: -1}
+	mx.push()
+	mkName := g.fresh("mk")
+	fx.declare(Binding{mkName, nil})
+	nv := 2 + g.r.Intn(3)
+	var vars []Binding
+	for i := 0; i < nv; i++ {
+		v := g.val()
+		vars = append(vars, Binding{g.fresh("v"), ival(v)})
+	}
+	// declarations: one statement or several
+	if g.r.Bool() {
+		st := &Stmt{K: "local"}
+		for _, b := range vars {
+			st.Names = append(st.Names, b.Name)
+			st.Exprs = append(st.Exprs, num(*b.Val))
+			st.Vals = append(st.Vals, b.Val)
+			mx.declare(b)
+		}
+		mk.Body = append(mk.Body, st)
+	} else {
+		for _, b := range vars {
+			mk.Body = append(mk.Body, &Stmt{K: "local", Names: []string{b.Name}, Exprs: []*Expr{num(*b.Val)}, Vals: []*int{b.Val}})
+			mx.declare(b)
+		}
+	}
+	nc := 2 + g.r.Intn(2)
+	type clo struct {
+		name string
+		call *Expr
+	}
+	var clos []clo
+	ret := &Stmt{K: "return"}
+	for k := 0; k < nc; k++ {
+		f := &Func{ID: g.fn()}
+		cx := &fctx{fn: f, parent: mx, callerNLoc: -1}
+		cx.push()
+		hn := g.fresh("h")
+		e := call(name(hn))
+		p := g.pt("chain")
+		e.Pt = p
+		cx.callSite, cx.callPt, cx.callerFn = e, p, fx
+		// which variables this closure uses, in which order (the first closure prefers the last
+		// variables: captured in descending register order)
+		order := g.r.Intn(3)
+		used := 1 + g.r.Intn(nv)
+		for j := 0; j < used; j++ {
+			var b Binding
+			switch order {
+			case 0:
+				b = vars[nv-1-(j+k)%nv]
+			case 1:
+				b = vars[(j+k)%nv]
+			default:
+				b = vars[g.r.Intn(nv)]
+			}
+			cx.resolve(b.Name)
+			f.Body = append(f.Body, &Stmt{K: "assign", Lhs: []*Expr{name(fmt.Sprintf("G%d", 1+g.r.Intn(3)))}, Exprs: []*Expr{name(b.Name)}})
+		}
+		acts := []action{{K: "q"}}
+		if g.r.Chance(50) {
+			acts = append(acts, action{K: "qu"})
+		}
+		f.Body = append(f.Body, g.genSeq(cx, acts, 2)...)
+		f.Body = append(f.Body, &Stmt{K: "return", Exprs: []*Expr{num(1)}})
+		gn := g.fresh("g")
+		mk.Body = append(mk.Body, &Stmt{K: "local", Names: []string{gn}, Exprs: []*Expr{{K: "func", Fn: f}}, Vals: []*int{nil}})
+		mx.declare(Binding{gn, nil})
+		ret.Exprs = append(ret.Exprs, name(gn))
+		clos = append(clos, clo{hn, e})
+	}
+	mk.Body = append(mk.Body, ret)
+	g.classes["factory"] = true
+	g.size += 4
+	out := []*Stmt{{K: "localfunc", Names: []string{mkName}, Fn: mk}}
+	recv := &Stmt{K: "local", Exprs: []*Expr{call(name(mkName))}}
+	for _, c := range clos {
+		recv.Names = append(recv.Names, c.name)
+		recv.Vals = append(recv.Vals, nil)
+	}
+	out = append(out, recv)
+	for _, c := range clos {
+		fx.declare(Binding{c.name, nil})
+	}
+	// other calls run over the registers the factory used
+	out = append(out, &Stmt{K: "call", Exprs: []*Expr{call(name("sink"), num(11), num(12), num(13), g.strLit(), num(15))}})
+	for _, i := range g.perm(len(clos)) {
+		c := clos[i]
+		g.onPlace = nil
+		out = append(out, g.shape(fx, c.call, true, false, false, depth)...)
+	}
+	return out
+}
+
+func (g *gen) perm(n int) []int {
+	p := make([]int, n)
+	for i := range p {
+		p[i] = i
+	}
+	for i := n - 1; i > 0; i-- {
+		j := g.r.Intn(i + 1)
+		p[i], p[j] = p[j], p[i]
+	}
+	return p
+}
+
 // scenario: R(k, pcall(f, args...)) where f heads a chain that usually ends in a fault.
 func (g *gen) scenario(fx *fctx, depth int) []*Stmt {
 	g.nScen++
@@ -1287,6 +1400,8 @@ func (g *gen) act(fx *fctx, a action, depth int) []*Stmt {
 		return g.faultAction(fx, a.Fault, a.Scen, depth)
 	case "scen":
 		return g.scenario(fx, depth)
+	case "factory":
+		return g.factory(fx, depth)
 	}
 	panic("action " + a.K)
 }
@@ -1381,6 +1496,9 @@ func genProgram(r *lib.Rand) *Generated {
 	for i := 0; i < nsc; i++ {
 		if r.Chance(45) {
 			acts = append(acts, action{K: []string{"q", "q", "qs"}[r.Intn(3)]})
+		}
+		if r.Chance(30) {
+			acts = append(acts, action{K: "factory"})
 		}
 		if r.Chance(30) {
 			// a chain entered directly from the main chunk, returning normally
